@@ -98,6 +98,7 @@ func checkParseInput(c *h.Ctx, in string, rule string) (accepted bool) {
 		c.Distinct(in)
 	}
 	p, err, panicked := h.ParseSafe(in)
+	c04Start.Store(0) // the hang watchdog times the Parse call only
 	if panicked != "" {
 		c.Violate("panic", h.F("site", panicSite(panicked)), "Parse panicked: "+panicked, inputCase(in, rule))
 		return false
@@ -269,7 +270,7 @@ func walkAST(n ast.Node, f func(ast.Node)) {
 			walkAST(s, f)
 		}
 	default:
-		if gen.FromNode(n) == nil {
+		if gen.IsNilNode(n) {
 			return
 		}
 		f(n)
@@ -353,7 +354,7 @@ func runC04(c *h.Ctx) {
 			case <-t.C:
 				seq := c04Seq.Load()
 				st := c04Start.Load()
-				if seq == lastSeq && st > 0 && time.Since(time.Unix(0, st)) > 60*time.Second {
+				if seq == lastSeq && st > 0 && c04Start.Load() == st && time.Since(time.Unix(0, st)) > 60*time.Second {
 					j := h.ReadJournal(c.WorkDir, c.Shard)
 					c.Violate("hang", h.F("kind", "parse-over-60s"), "a single Parse call did not return within 60 s", h.Case{Kind: "journal", Input: j})
 					_ = c.Finish("")
